@@ -1,0 +1,22 @@
+//go:build verif
+
+// Contracts for the verifier in /verif (govc). Comment-only: no declarations.
+
+package addr
+
+//@ func (pa *ProtoAddress) Addr
+//@   property C18
+//@   pure
+//@   ensures err == nil ==> result != nil
+
+//@ func ParseAddress
+//@   property C18
+//@   safe
+//@   pure
+//@   ensures err == nil ==> result != nil && spec_fresh(result)
+//@   ensures err != nil ==> result == nil
+
+//@ func (pa *ProtoAddress) UnmarshalFlag
+//@   property C18
+//@   safe
+//@   modifies pa.URL
